@@ -222,6 +222,8 @@ SUM_MC = {
                  ("US3", "TRUE", "TRUE", "TRUE", 1, "TRUE", "TRUE")],
 }
 SUM_MC_AMBIG = {"quick": [], "thorough": [("US2", "TRUE", "FALSE", "FALSE", 0, "FALSE", "TRUE")]}
+SUM_MC_LAZY = {"quick": [("US1", "FALSE", "FALSE", "FALSE", 1, "FALSE", "FALSE")],
+               "thorough": [("US1", "TRUE", "FALSE", "FALSE", 1, "FALSE", "TRUE")]}
 # (universe, HasBefore, HasAfter, NotFoundToo, MaxErr, Truncate, Replay, num)
 SUM_GEN = {
     "quick": [("US1", "TRUE", "TRUE", "FALSE", 1, "FALSE", "TRUE", 250),
@@ -242,10 +244,10 @@ SUM_GEN = {
 }
 
 
-def _sum_consts(uni, hb, ha, nf, maxerr, trunc, replay, logs="FALSE", ambig="FALSE"):
+def _sum_consts(uni, hb, ha, nf, maxerr, trunc, replay, logs="FALSE", ambig="FALSE", lazy="FALSE"):
     return [("U", "<- " + uni), ("HasBefore", "= " + hb), ("HasAfter", "= " + ha),
             ("NotFoundToo", "= " + nf), ("MaxErr", f"= {maxerr}"), ("Truncate", "= " + trunc),
-            ("Replay", "= " + replay), ("Logs", "= " + logs), ("Ambig", "= " + ambig)]
+            ("Replay", "= " + replay), ("Logs", "= " + logs), ("Ambig", "= " + ambig), ("LazyParse", "= " + lazy)]
 
 
 def run_summarize_engine(tier):
@@ -256,9 +258,10 @@ def run_summarize_engine(tier):
         return cached
     t0 = time.time()
     mcs = []
-    for n, c in enumerate(SUM_MC[tier] + SUM_MC_AMBIG[tier]):
+    for n, c in enumerate(SUM_MC[tier] + SUM_MC_AMBIG[tier] + SUM_MC_LAZY[tier]):
         cfg = os.path.join(WORK, f"MC_Summarize_{n}.cfg")
-        _cfg(cfg, "Spec", _sum_consts(*c, ambig="TRUE" if c in SUM_MC_AMBIG[tier] else "FALSE"),
+        _cfg(cfg, "Spec", _sum_consts(*c, ambig="TRUE" if c in SUM_MC_AMBIG[tier] else "FALSE",
+                                      lazy="TRUE" if c in SUM_MC_LAZY[tier] else "FALSE"),
              invs=("StepCountersAgree", "ScenariosAgree", "VerdictAgrees", "ExactWithoutRetries", "OneSummary"))
         r = tlc("MC_Summarize.tla", cfg, workers=8, timeout=3000, tag=f"mcsum{n}")
         require_ok(r, f"MC_Summarize {c}")
@@ -277,7 +280,7 @@ def run_summarize_engine(tier):
     for n, c in enumerate(SUM_GEN[tier]):
         cfg = os.path.join(WORK, f"Gen_Summarize_{n}.cfg")
         logs = c[8] if len(c) > 8 else "FALSE"
-        _cfg(cfg, "Spec", _sum_consts(*c[:7], logs=logs, ambig=logs), invs=("Dump",))
+        _cfg(cfg, "Spec", _sum_consts(*c[:7], logs=logs, ambig=logs, lazy=logs), invs=("Dump",))
         r = tlc("Gen_Summarize.tla", cfg, workers=1,
                 simulate={"num": c[7], "depth": 300, "seed": seed() * 1000 + 77 + n},
                 timeout=1800, tag=f"gensum{n}")
@@ -518,7 +521,8 @@ C14_GEN = {
               ("US2", "TRUE", "TRUE", "FALSE", 1, "FALSE", 80, {"verbose": 2, "show_output": True, "report_time": False, "decorate": "basic"}),
               ("US1", "TRUE", "FALSE", "FALSE", 0, "FALSE", 30, {"verbose": 0, "show_output": False, "report_time": False, "decorate": "cdata"}),
               ("US2", "TRUE", "TRUE", "FALSE", 1, "FALSE", 80, {"verbose": 0, "show_output": True, "report_time": False, "logs": True}),
-              ("US3", "TRUE", "FALSE", "TRUE", 0, "FALSE", 60, {"verbose": 1, "show_output": False, "report_time": False, "logs": True})],
+              ("US3", "TRUE", "FALSE", "TRUE", 0, "FALSE", 60, {"verbose": 1, "show_output": False, "report_time": False, "logs": True}),
+              ("US2", "FALSE", "TRUE", "FALSE", 2, "FALSE", 120, {"verbose": 0, "show_output": False, "report_time": False, "lazy": True})],
     "thorough": [
                  ("US1", "TRUE", "TRUE", "FALSE", 1, "FALSE", 800, {"verbose": 0, "show_output": True, "report_time": False, "decorate": "basic"}),
                  ("US3", "TRUE", "FALSE", "TRUE", 1, "FALSE", 800, {"verbose": 1, "show_output": False, "report_time": False, "decorate": "basic"}),
@@ -530,7 +534,9 @@ C14_GEN = {
                  ("US2np", "FALSE", "TRUE", "TRUE", 1, "FALSE", 600, {"verbose": 0, "show_output": True, "report_time": False}),
                  ("US1", "TRUE", "TRUE", "FALSE", 1, "FALSE", 800, {"verbose": 0, "show_output": True, "report_time": False, "logs": True}),
                  ("US3", "TRUE", "TRUE", "TRUE", 1, "FALSE", 800, {"verbose": 1, "show_output": False, "report_time": False, "logs": True}),
-                 ("US2", "TRUE", "TRUE", "FALSE", 1, "FALSE", 400, {"verbose": 0, "show_output": True, "report_time": False, "decorate": "basic", "logs": True})],
+                 ("US2", "TRUE", "TRUE", "FALSE", 1, "FALSE", 400, {"verbose": 0, "show_output": True, "report_time": False, "decorate": "basic", "logs": True}),
+                 ("US2", "FALSE", "TRUE", "FALSE", 2, "FALSE", 1500, {"verbose": 0, "show_output": False, "report_time": False, "lazy": True}),
+                 ("US1", "TRUE", "TRUE", "TRUE", 2, "TRUE", 1000, {"verbose": 1, "show_output": False, "report_time": False, "lazy": True})],
 }
 
 
@@ -558,6 +564,7 @@ def c14_judge(group, tag):
             info[name].setdefault("wellformed", True)
         info["junit"].setdefault("status_mismatch", 0)
         info["junit"].setdefault("totals_mismatch", 0)
+        info["json"].setdefault("dup_features", 0)
         lt = info["libtest"]
         for key, dflt in (("unpaired", 0), ("n_ok", 0), ("n_failed", 0), ("n_ignored", 0),
                           ("suite_started", 0), ("suite_result", 0)):
@@ -588,7 +595,8 @@ def check_c14(tier):
         cfg = os.path.join(WORK, f"Gen_Reporters_{n}.cfg")
         _cfg(cfg, "Spec", _sum_consts(c[0], c[1], c[2], c[3], c[4], c[5], "FALSE",
                                       logs="TRUE" if c[7].get("logs") else "FALSE",
-                                      ambig="TRUE" if c[7].get("ambig", c[7].get("logs")) else "FALSE"),
+                                      ambig="TRUE" if c[7].get("ambig", c[7].get("logs")) else "FALSE",
+                                      lazy="TRUE" if c[7].get("lazy", c[7].get("logs")) else "FALSE"),
              invs=("Dump",))
         r = tlc("Gen_Summarize.tla", cfg, workers=1,
                 simulate={"num": c[6], "depth": 300, "seed": seed() * 1000 + 140 + n},
